@@ -370,6 +370,10 @@ impl CommandLine {
         for sub_tokens in split_tokens_by_pipes(&tokens) {
             match Command::from_tokens(sub_tokens) {
                 Ok(c) => {
+                    if c.tokens.is_empty() {
+                        // e.g. `> file`: only redirections, no command word
+                        return Err(String::from("syntax error: missing command"));
+                    }
                     commands.push(c);
                 }
                 Err(e) => {
